@@ -189,6 +189,15 @@ func (m *Migrator) mergeResults(results []MigrationResult, typeConverter *TypeCo
 				Packages: []string{pkgName, r.Package},
 			}
 		}
+		// Two different packages can share a name (two commands, both "package main").
+		if first, other := results[0].TypesPackage, r.TypesPackage; first != nil && other != nil && first.Path() != other.Path() {
+			return nil, nil, &MergeError{
+				Kind:     MergeErrorPackageMismatch,
+				Message:  fmt.Sprintf("package mismatch: %s vs %s", first.Path(), other.Path()),
+				Files:    []string{results[0].SourceFile, r.SourceFile},
+				Packages: []string{first.Path(), other.Path()},
+			}
+		}
 	}
 
 	// Check for identifier collisions
